@@ -686,6 +686,21 @@ func runVersionedConcurrency(e *c07Env, round int) {
 	}
 	if len(vr.Entries) != len(puts)+len(markers) {
 		r.Violation(sig("C07", "mem", "version-lost-update", "concurrent-put"), fmt.Sprintf("%d uploads and %d delete markers were acknowledged but ListObjectVersions shows %d entries", len(puts), len(markers), len(vr.Entries)), nil)
+		return
+	}
+	// whatever the concurrent writes left as current is the newest version: push and pop must restore it,
+	// also after the served version itself has been removed
+	for _, key := range []string{"vk0", "vk1"} {
+		for depth := 0; depth < 3; depth++ {
+			if !pushPop(e, b, key, "concurrent-put", fmt.Sprintf("after %d concurrent versioned clients (depth %d)", nclients, depth)) {
+				return
+			}
+			cur := readCurrent(e, b, key)
+			if cur.status != 200 || cur.ver == "" {
+				break
+			}
+			e.s.Do(&drv.Req{Method: "DELETE", Path: drv.ObjPath(b, key), Query: drv.Q("versionId", cur.ver)})
+		}
 	}
 }
 
@@ -1211,7 +1226,7 @@ func runGatedPair(e *c07Env, aName, point, bName string, caseNo int) {
 					verdict = fmt.Sprintf("goroutine %s is parked (%s) in two dumps 5 s apart", id, st2)
 				}
 			}
-			dump := filepath.Join(rep.Root, "out", "C07", fmt.Sprintf("deadlock-%d.txt", time.Now().UnixNano()))
+			dump := filepath.Join(rep.OutDir("C07"), fmt.Sprintf("deadlock-%d.txt", time.Now().UnixNano()))
 			os.MkdirAll(filepath.Dir(dump), 0755)
 			os.WriteFile(dump, []byte(d1+"\n\n====== 5 s later ======\n\n"+d2), 0644)
 			if verdict != "" {
@@ -1264,7 +1279,6 @@ func runGatedPair(e *c07Env, aName, point, bName string, caseNo int) {
 	}
 }
 
-
 // ---- deadlock watchdog ------------------------------------------------------------
 
 var parkedOnLock = regexp.MustCompile(`^goroutine (\d+)[^\[]*\[(sync\.(?:RW)?Mutex\.R?Lock|semacquire|sync\.Cond\.Wait)[^\]]*, (\d+) minutes\]`)
@@ -1316,7 +1330,7 @@ func c07Watchdog(r *rep.Reporter, stop <-chan struct{}) {
 		if len(uniq) > 3 {
 			uniq = uniq[:3]
 		}
-		path := filepath.Join(rep.Root, "out", "C07", fmt.Sprintf("deadlock-%d.txt", time.Now().UnixNano()))
+		path := filepath.Join(rep.OutDir("C07"), fmt.Sprintf("deadlock-%d.txt", time.Now().UnixNano()))
 		os.MkdirAll(filepath.Dir(path), 0755)
 		os.WriteFile(path, []byte(dump), 0644)
 		r.Violation(sig("C07", "any", "deadlock", strings.Join(uniq, "+")), fmt.Sprintf("%d request handlers have been parked on a server lock for at least two minutes (innermost server frames: %s); nothing outside the server holds those locks", n, strings.Join(uniq, ", ")),
@@ -1329,7 +1343,7 @@ func c07Watchdog(r *rep.Reporter, stop <-chan struct{}) {
 
 func runC07(c *Ctx) {
 	r := c.R
-	r.SetRule("(1) short concurrent histories over loopback TCP: 2-16 clients x 1-6 operations (put/get/head/delete/copy incl. self-copy/list) on 1-3 keys per history, every written body unique, call/return stamped by one monotonic clock, a final read of every key at quiescence; every read must be exactly one uploaded body with matching ETag/length, and each key's sub-history must be linearizable against a register model (porcupine); (2) concurrent versioned uploads/deletes: ids distinct, GET ?versionId returns exactly that upload, nothing lost; (3) concurrent part uploads, completes and aborts of one upload: held parts are acknowledged uploads, at most one complete wins, the object is exactly the listed parts; random concurrent histories of part uploads / completes (current, subset and stale lists) / aborts / ListParts / GET on one upload, a slow part upload whose body is still arriving while a complete or abort is answered, and part/complete parked at their hook points with the other operations inside the window, each history checked with porcupine against a sequential model of the upload (live?, body held per part number, bodies of the completed object); (4) a slow reader overlapping an acknowledged overwrite and a slow uploader with reads in between; (5) every ordered pair (A parked at a hook point, B run inside A's window) of operation kinds on one key; (6) bucket life cycle: create/delete/head bucket racing put/get/delete/list on two keys of that bucket, random histories over TCP and object operations parked at hook points with bucket operations inside the window, each whole history checked against a sequential bucket model (existence + both values) with porcupine; (7) the Go race detector over all of it; memory structures audited at quiescence; on all six backends; distinct = distinct observed interleavings (sequence of call/return events per history)")
+	r.SetRule("(1) short concurrent histories over loopback TCP: 2-16 clients x 1-6 operations (put/get/head/delete/copy incl. self-copy/list) on 1-3 keys per history, every written body unique, call/return stamped by one monotonic clock, a final read of every key at quiescence; every read must be exactly one uploaded body with matching ETag/length, and each key's sub-history must be linearizable against a register model (porcupine); (2) concurrent versioned uploads/deletes: ids distinct, GET ?versionId returns exactly that upload, nothing lost, and the version an unqualified read serves afterwards behaves as the newest one (one more upload followed by the deletion of exactly that version restores the same answer, repeatedly); a versioned PUT parked at each of its hook points with another PUT or DELETE of the key completing inside the window, judged the same way; (3) concurrent part uploads, completes and aborts of one upload: held parts are acknowledged uploads, at most one complete wins, the object is exactly the listed parts; random concurrent histories of part uploads / completes (current, subset and stale lists) / aborts / ListParts / GET on one upload, a slow part upload whose body is still arriving while a complete or abort is answered, and part/complete parked at their hook points with the other operations inside the window, each history checked with porcupine against a sequential model of the upload (live?, body held per part number, bodies of the completed object); (4) a slow reader overlapping an acknowledged overwrite and a slow uploader with reads in between; (5) every ordered pair (A parked at a hook point, B run inside A's window) of operation kinds on one key; (6) bucket life cycle: create/delete/head bucket racing put/get/delete/list on two keys of that bucket, random histories over TCP and object operations parked at hook points with bucket operations inside the window, each whole history checked against a sequential bucket model (existence + both values) with porcupine; (7) the Go race detector over all of it; memory structures audited at quiescence; on all six backends; distinct = distinct observed interleavings (sequence of call/return events per history)")
 	nhist := r.Pick(140, 3000)
 	rounds := r.Pick(8, 150)
 	nlife := r.Pick(100, 2500)
@@ -1434,6 +1448,17 @@ func runC07(c *Ctx) {
 					}
 				}
 			}
+			// a versioned PUT parked, another write of the same key inside the window
+			if kind == drv.Mem {
+				for rep := 0; rep < r.Pick(2, 20); rep++ {
+					for _, p := range []string{"ensure-bucket.after", "s3mem.put.after-read", "s3mem.put.before-lock"} {
+						for _, b := range []string{"put", "delete"} {
+							caseNo++
+							runGatedVersioned(e, p, b, caseNo)
+						}
+					}
+				}
+			}
 			// operations on one multipart upload: A parked, B inside the window
 			for rep := 0; rep < r.Pick(1, 4); rep++ {
 				for _, b := range []string{"complete", "complete-subset", "abort", "part", "listparts"} {
@@ -1499,6 +1524,8 @@ func runC07(c *Ctx) {
 	r.Require("requests_during_slow_upload", 30)
 	r.Require("multipart_completes_won", 5)
 	r.Require("version_reads", 100)
+	r.Require("push_pop_checks", 30)
+	r.Require("gated_versioned_pairs_parked", 10)
 	r.Require("multipart_histories_linearizable", 200)
 	r.Require("part_upload_overlapping_complete_or_abort", 50)
 	r.Require("slow_part_uploads", 50)
